@@ -75,6 +75,10 @@ def check_summary(obj, X, viol):
                         viol.append({"kind": "summary-label", "what": f"{f}: summary says {v!r} -> {lab!r} but transform outputs {out!r}"})
         else:
             leaders = list(order)
+            for lab, content in zip(labels, contents):
+                descr = [c for c in content if c != obj.str_nan]
+                if len(descr) > 1:
+                    viol.append({"kind": "summary-quant-content", "what": f"{f}: the row of label {lab!r} describes one fitted group by several intervals {descr!r}"})
             if len(labels) != len(leaders):
                 viol.append({"kind": "summary-quant-rows", "what": f"{f}: {len(labels)} summary rows for {len(leaders)} fitted groups ({leaders!r})"})
             # labels reachable by transform: one probe per group + missing value
@@ -261,6 +265,20 @@ def run_case(case):
         n = check_summary(carver, fit["X"], viol)
     if "f" in carver.features:
         tested = check_history(case, obs, viol)
+        # summary() again after one manual edit on the same (already summarised) object
+        if not viol and case["carver"] != "multiclass":
+            from . import c17
+
+            evs = [e for e in c17.enabled(carver, fit["X"], case["kind"]) if e[0] == "group"]
+            if evs:
+                try:
+                    c17.apply_edit(carver, evs[0])
+                    sv = []
+                    check_summary(carver, fit["X"], sv)
+                    for v in sv[:2]:
+                        viol.append({"kind": "after-edit:" + v["kind"], "what": f"after update_discretizer{tuple(evs[0])} (summary() called before): " + v["what"]})
+                except Exception as exc:  # noqa  (the edit itself is C17's business)
+                    pass
         res["outcome"] = f"carver:{case['kind']}:kept:{'2stage' if case.get('nan') and case['cfg'].get('dropna', True) else '1stage'}"
         if tested >= 2:
             res["nontrivial"] = c01.space_key(case)
